@@ -132,6 +132,9 @@ func (p *parser) parseFuncSignatures(funcs []int) {
 	for _, i := range funcs {
 		p.advanceTo(i)
 		fd := p.parseFuncDefSignature()
+		if fd == nil {
+			continue // no function name after `func`, error already reported
+		}
 		if p.builtins.Globals[fd.Name] != nil {
 			// We still go on to add `fd` to the funcs map so that the
 			// function can be parsed correctly even though it has an invalid name.
@@ -210,6 +213,11 @@ func (p *parser) parseFunc() Node {
 
 	p.advancePastNL() // advance past signature, already parsed into p.funcs earlier
 	fd := p.funcs[funcName]
+	if tok.TokenType() != lexer.IDENT || fd == nil {
+		// Invalid signature, already reported by parseFuncSignatures.
+		// Parse the body with a placeholder to report further errors only.
+		fd = &FuncDefStmt{token: tok, ReturnType: NONE_TYPE}
+	}
 	p.scope = newScopeWithReturnType(p.scope, fd, fd.ReturnType)
 	defer p.popScope()
 	p.addParamsToScope(fd)
